@@ -1,4 +1,4 @@
-import WP.Model.SwapMath
+import WP.Model.Hist
 /-
   Line-protocol driver: one operation per line on stdin, one canonical result line on stdout.
   `ok <fields…>` | `err <ErrorName>` | `bad-op`.  See DESIGN.md Appendix B.
@@ -53,17 +53,23 @@ def stepPure (toks : List String) : Option String :=
       pure (showR ((divRoundUpIfU256 n d up).map toString))
   | _ => none
 
-partial def loop (h : IO.FS.Stream) (out : IO.FS.Stream) : IO Unit := do
+partial def loop (h : IO.FS.Stream) (out : IO.FS.Stream) (hist : Option HistState) : IO Unit := do
   let line ← h.getLine
   if line.isEmpty then return ()
   let toks := (line.trimAscii.toString.splitOn " ").filter (· ≠ "")
-  match stepPure toks with
-  | some s => out.putStrLn s
-  | none => out.putStrLn "bad-op"
-  loop h out
+  match toks with
+  | "H" :: rest =>
+    let (hist', s) := histLine hist rest
+    out.putStrLn s
+    loop h out hist'
+  | _ =>
+    match stepPure toks with
+    | some s => out.putStrLn s
+    | none => out.putStrLn "bad-op"
+    loop h out hist
 
 def driverMain : IO Unit := do
   let out ← IO.getStdout
-  loop (← IO.getStdin) out
+  loop (← IO.getStdin) out none
 
 end WP
